@@ -16,14 +16,15 @@ LEVEL = "exploration"
 RULE = ("enumeration, sharded: all 3600 product ids; all 13149 dates 2014-01-01..2049-12-31 as scene ids (random orbit/frame); "
         "all 20 scan suffixes; file names = file type x polarisation(5 incl. none) x product id x scan variant(21) on a rotating "
         "date (quick: 20k sampled shapes, thorough: all ~3.8e5); near-misses: every single-character replacement by one "
-        "representative of each character class (incl. non-ASCII decimal digits and letters), every single deletion, insertions and trailing garbage on sampled valid strings "
+        "representative of each character class (incl. non-ASCII decimal digits and letters), every single deletion, insertions and trailing garbage (incl. one line feed, CR, CRLF, tab, NUL, U+2028) on sampled valid strings; file-name near-misses also through filename_to_groupname and, renamed inside a product, through open_alos2 "
         "(quick ~6k, thorough ~60k), classified by the independent recogniser; 96 (quick) / 600 (thorough) ids end to end. "
         "evaluations = strings decoded; distinct = distinct strings (union over all shards of 48-bit hashes of the decoded strings, counted)")
 ASSUMPTIONS = ["two-digit years are resolved relative to the current year (2026 => 1976..2075), which covers 2014..2049",
                "mission name fixed to ALOS2 (there is no code table for it)",
                "'scan' in the uniqueness clause is the scan number (a product has either B or F scans)",
                "near-misses are single edits of strings whose date lies in 2014..2049 (multi-edit strings such as '011305' -> 2005-01-13 via dateutil's month/day swap are outside the stated quantifier; recorded in DESIGN.md)"]
-REQUIRED_OBS = ["product_ids", "scene_dates", "file_names", "near_misses_rejected", "group_names"]
+REQUIRED_OBS = ["product_ids", "scene_dates", "file_names", "near_misses_rejected", "group_names", "group_name_near_misses",
+                "end_to_end_near_misses"]
 NSHARD = 32
 CLASS_REPS = "A9_.-h \u0663\uff13\u00c4"  # incl. an Arabic-Indic digit, a full-width digit and a non-ASCII capital
 
@@ -56,7 +57,8 @@ def near_misses(rng, s, limit):
                 out.add(s[:p] + c + s[p + 1:])
         out.add(s[:p] + s[p + 1:])
         out.add(s[:p] + rng.choice("A0-_") + s[p:])
-    out |= {s + "X", s + "-F1", s + " ", " " + s, s + "0", s.lower()}
+    out |= {s + "X", s + "-F1", s + " ", " " + s, s + "0", s.lower(),
+            s + "\n", s + "\r", s + "\r\n", s + "\t", s + "\x00", "\n" + s, s + "\u2028", s + "\n\n", s + "\x0b", s + "\x85"}
     out.discard(s)
     return sorted(out)
 
@@ -172,6 +174,21 @@ def run_case(i, tier, seed):
                     obs["near_misses_rejected"] += 1
                 elif r == "ok":
                     obs["near_misses_still_valid"] += 1
+                if fn is decoders.decode_filename:
+                    # the group name is derived from the file name: outside the language => ValueError, inside => the naming rule
+                    obs["group_name_near_misses"] = obs.get("group_name_near_misses", 0) + 1
+                    try:
+                        g = filename_to_groupname(s)
+                    except ValueError:
+                        if want is not None:
+                            violations.append({"what": f"group name of the valid file name {s!r} rejected", "detail": {}})
+                    except Exception as e:
+                        violations.append({"what": f"filename_to_groupname({s!r}) failed with {type(e).__name__} instead of ValueError: {str(e)[:100]}", "detail": {}})
+                    else:
+                        if want is None:
+                            violations.append({"what": f"file name {s!r} is outside the documented language but was given the group name {g!r}", "detail": {}})
+                        elif "polarization" in want and g != harness.group_name(s):
+                            violations.append({"what": f"group name of {s!r} is {g!r}, naming rule says {harness.group_name(s)!r}", "detail": {}})
     else:
         # ---- end to end: products named with an id; observe /summary and /imagery
         for k in range(24 if tier == "quick" else 25):
@@ -206,6 +223,29 @@ def run_case(i, tier, seed):
                 violations.append({"what": f"product named with id {pid} could not be opened: {harness.exc_sig(e)}", "detail": {}})
             finally:
                 synth.uninstall(files, root, "memory")
+            # the same product with one image file renamed to a near-miss of its name: the open must fail with ValueError
+            img = info["names"]["imgs"][0]
+            cands = [x for x in near_misses(rng, img, 4) if idlang.decode_filename(x) is None and x.isascii() and x.isprintable()
+                     and '"' not in x and "/" not in x and x == x.strip() and x not in files]
+            if cands:
+                bad = rng.choice(cands)
+                files2 = {(bad if k2 == img else k2): v2 for k2, v2 in files.items()}
+                files2["summary.txt"] = files["summary.txt"].replace(img.encode() + b'"', bad.encode() + b'"')
+                root2 = harness.unique_root("memory", "c15n")
+                url2 = synth.install(files2, root2, "memory")
+                try:
+                    obs["end_to_end_near_misses"] = obs.get("end_to_end_near_misses", 0) + 1
+                    strings += 1
+                    seen.add(_h("e2e-near:" + bad))
+                    try:
+                        t2 = harness.open_tree(url2, use_cache=False)
+                        violations.append({"what": f"product with the image file name {bad!r} (outside the documented language) opened; /imagery = {list(t2['imagery'].children)}", "detail": {}})
+                    except ValueError:
+                        pass
+                    except Exception as e:
+                        violations.append({"what": f"product with the image file name {bad!r} failed with {type(e).__name__} instead of ValueError: {str(e)[:120]}", "detail": {}})
+                finally:
+                    synth.uninstall(files2, root2, "memory")
         sample = {"end_to_end_product_id": pid}
     return {"sig": f"shard{i}", "evals": strings, "violations": violations[:8], "obs": obs, "sample": sample, "strings": strings,
             "seen": sorted(seen)}
